@@ -173,7 +173,9 @@ CHECKS = {
              "equalities, AlignedRest flags, the accounting of single-pass records, that every joined record has a "
              "first- and a second-pass part on the same reference and strand within maxDifference, that its pairs "
              "are a subset of the union and equal to it when the union is a valid matching; the dispatch is replayed "
-             "from all._1/all._2 for drift.",
+             "from all._1/all._2 for drift. The join itself (Join.tla) is model-checked on pairs of lattice rows and the "
+             "real AlignmentResultRow.resolve is run on every pair TLC prints plus realistic row pairs (Trace_Join); the "
+             "one recorded known finding (D7, merge cut inside the conflict zone) is matched by a structural signature.",
         design_ref="DESIGN.md section 4 (C08), section 10",
         note="Records are compared as independently parsed text fields.",
     ),
